@@ -9,8 +9,15 @@ for d in sorted(glob.glob(f'{V}/seeded/C*-m*')):
     meta=json.load(open(f'{d}/meta.json'))
     if os.path.exists(f):
         r=json.load(open(f))
-        meta['caught_by']=r.get('caught_by',[])
-        meta['failing_obligations']={k:[re.sub(r'\s+(missing\s+)?no-failing-input-found$','',o) for o in v] for k,v in r.get('obligations',{}).items()}
+        # a property whose only failing obligations are timeouts / unknown is 'undecided', not a catch (machine load)
+        cb=[];ub=[]
+        for q in r.get('caught_by',[]):
+            obs=r.get('obligations',{}).get(q,[])
+            hard=[o for o in obs if not re.search(r'status=(timeout|unknown|error)\b',o)]
+            (cb if (hard or not obs) else ub).append(q)
+        meta['caught_by']=cb
+        meta['undecided_by']=ub
+        meta['failing_obligations']={k:[re.sub(r'\s+(status=\S+\s*)?(missing\s*)?(no-failing-input-found)?$','',o) for o in v] for k,v in r.get('obligations',{}).items()}
         json.dump(meta,open(f'{d}/meta.json','w'),indent=1)
     summary=meta.get('summary','')
     if not summary:
